@@ -424,8 +424,11 @@ func checkC03(c *Ctx) {
 		runWHReset(c2, "WH-reset")
 		// definition and repetition levels live in separate slices that cannot grow into each other
 		laOverlap(c2, "LA-overlap")
+		// the level streams are written (and read) with the minimal bit width of the column's maximum level, which is what
+		// "a reader that knows only the Parquet specification" derives from the schema
+		laOrder(c2, "LA-order")
 	})
-	r.assume("RepetitionTypes.MaxDef/MaxRep and bits.Len arithmetic at run time, and the RLE bytes (C07), are not decided here")
+	r.assume("RepetitionTypes.MaxDef/MaxRep at run time and the RLE bytes (C07) are not decided here")
 }
 
 // --- C14 ---
